@@ -26,6 +26,7 @@ from typing import cast
 
 from explorerscript.antlr.ExplorerScriptParser import ExplorerScriptParser
 from explorerscript.antlr.ExplorerScriptVisitor import ExplorerScriptVisitor
+from explorerscript.error import SsbCompilerError
 from explorerscript.macro import ExplorerScriptMacro
 from explorerscript.source_map import SourceMapBuilder
 from explorerscript.ssb_converting.compiler.compile_handlers.abstract import AnyCompileHandler
@@ -36,6 +37,7 @@ from explorerscript.ssb_converting.compiler.compile_handlers.functions.simple_de
 from explorerscript.ssb_converting.compiler.compiler_visitor.statement_visitor import StatementVisitor
 from explorerscript.ssb_converting.compiler.utils import CompilerCtx, Counter
 from explorerscript.ssb_converting.ssb_data_types import SsbRoutineInfo, SsbOperation
+from explorerscript.util import _, f
 
 
 class RoutineVisitor(ExplorerScriptVisitor):
@@ -122,9 +124,15 @@ class RoutineVisitor(ExplorerScriptVisitor):
         self._root_handler.add(IntegerLikeCompileHandler(ctx, self.compiler_ctx))
 
     def _enlarge_routine_info(self) -> None:
+        if self._active_routine_id < 0:
+            raise SsbCompilerError(_("Routine ids must not be negative."))
         if len(self.routine_infos) - 1 < self._active_routine_id:
             needed = self._active_routine_id - len(self.routine_infos) + 1
             for i in range(0, needed):
                 self.routine_infos.append(None)  # type: ignore
                 self.routine_ops.append([])
                 self.named_coroutines.append([])  # type: ignore
+        elif self.routine_infos[self._active_routine_id] is not None:
+            # noinspection PyUnusedLocal
+            routine_id = self._active_routine_id  # noqa
+            raise SsbCompilerError(f(_("The routine {routine_id} is defined more than once.")))
